@@ -335,9 +335,14 @@ func main() {
 			t := oracle.UUIDText(b.Hi, b.Lo)
 			bases = append(bases, t, "urn:uuid:"+t, strings.ToUpper(t), "URN:uuid:"+strings.ToUpper(t))
 		}
-		r.Phase(fmt.Sprintf("1-deviation mutants (substitute/insert all 256 byte values, delete) of %d valid texts x 4 rules x 3 entry points", len(bases)), "complete for 1 deviation", func() {
+		r.Phase(fmt.Sprintf("special words (null, nil, true, NaN, {}, ...) and 1-deviation mutants (substitute/insert all 256 byte values, delete) of %d valid texts x 4 rules x 3 entry points", len(bases)), "complete for 1 deviation", func() {
 			r.Parallel(int64(len(bases)), 1, func(w *mc.W, i int64) {
 				one(w, []byte(bases[i]))
+				if i == 0 {
+					for _, sw := range mc.SpecialWords {
+						one(w, []byte(sw))
+					}
+				}
 				mc.Mutations1([]byte(bases[i]), mc.AllBytes, func(m []byte) { one(w, m) })
 				mc.MutationsTok([]byte(bases[i]), mc.Lookalikes, func(m []byte) { one(w, m) })
 			})
